@@ -1,4 +1,5 @@
 // unit bitfield_fixed: src/bitfield/fixed.rs against the bit-exact view
+#![feature(allocator_api)]
 use vstd::prelude::*;
 verus! {
 
@@ -12,6 +13,33 @@ verus! {
 /*@ item src/bitfield/fixed.rs struct FixedBitfield @*/
 
 pub open spec fn bit_of(w: u32, o: u32) -> bool { (w >> o) & 1 == 1 }
+// JS layout of a page: bit k of the page is bit (k % 8) of byte k / 8 (little-endian words)
+pub open spec fn bytes_bit(s: Seq<u8>, k: int) -> bool { (s[k / 8] >> ((k % 8) as u8)) & 1 == 1 }
+
+pub proof fn lemma_word_bytes(w: u32, b0: u8, b1: u8, b2: u8, b3: u8)
+    requires w == (b0 as u32) | ((b1 as u32) << 8) | ((b2 as u32) << 16) | ((b3 as u32) << 24)
+    ensures
+        forall|o: u32| o < 8 ==> #[trigger] bit_of(w, o) == ((b0 >> (o as u8)) & 1 == 1),
+        forall|o: u32| 8 <= o < 16 ==> #[trigger] bit_of(w, o) == ((b1 >> ((o - 8) as u8)) & 1 == 1),
+        forall|o: u32| 16 <= o < 24 ==> #[trigger] bit_of(w, o) == ((b2 >> ((o - 16) as u8)) & 1 == 1),
+        forall|o: u32| 24 <= o < 32 ==> #[trigger] bit_of(w, o) == ((b3 >> ((o - 24) as u8)) & 1 == 1),
+{
+    assert(forall|o: u32| o < 8 ==> #[trigger] bit_of(w, o) == ((b0 >> (o as u8)) & 1 == 1)) by (bit_vector)
+        requires w == (b0 as u32) | ((b1 as u32) << 8) | ((b2 as u32) << 16) | ((b3 as u32) << 24);
+    assert(forall|o: u32| 8 <= o < 16 ==> #[trigger] bit_of(w, o) == ((b1 >> ((o - 8) as u8)) & 1 == 1)) by (bit_vector)
+        requires w == (b0 as u32) | ((b1 as u32) << 8) | ((b2 as u32) << 16) | ((b3 as u32) << 24);
+    assert(forall|o: u32| 16 <= o < 24 ==> #[trigger] bit_of(w, o) == ((b2 >> ((o - 16) as u8)) & 1 == 1)) by (bit_vector)
+        requires w == (b0 as u32) | ((b1 as u32) << 8) | ((b2 as u32) << 16) | ((b3 as u32) << 24);
+    assert(forall|o: u32| 24 <= o < 32 ==> #[trigger] bit_of(w, o) == ((b3 >> ((o - 24) as u8)) & 1 == 1)) by (bit_vector)
+        requires w == (b0 as u32) | ((b1 as u32) << 8) | ((b2 as u32) << 16) | ((b3 as u32) << 24);
+}
+
+pub proof fn lemma_byte_of(w: u32)
+    ensures w == (byte_of(w, 0) as u32) | ((byte_of(w, 1) as u32) << 8) | ((byte_of(w, 2) as u32) << 16) | ((byte_of(w, 3) as u32) << 24)
+{
+    assert(w == ((((w >> 0u32) & 0xff) as u8) as u32) | (((((w >> 8u32) & 0xff) as u8) as u32) << 8)
+        | (((((w >> 16u32) & 0xff) as u8) as u32) << 16) | (((((w >> 24u32) & 0xff) as u8) as u32) << 24)) by (bit_vector);
+}
 
 impl FixedBitfield {
     pub open spec fn bit(&self, i: int) -> bool
@@ -67,6 +95,169 @@ impl FixedBitfield {
         assert(forall|o: u32| o < 32 ==> bit_of(w0 ^ (1u32 << offset), o)
             == (if o == offset { !bit_of(w0, o) } else { bit_of(w0, o) })) by (bit_vector)
             requires offset < 32;
+    @*/
+
+    /*@ fn src/bitfield/fixed.rs FixedBitfield::set_range
+    tags: C08 C01
+    result: r
+    requires:
+        start as int + length as int <= 32768
+    ensures:
+        forall|k: int| 0 <= k < 32768 ==> final(self).bit(k)
+            == (if start <= k < start + length { value } else { old(self).bit(k) }),
+        r == (final(self).bitfield@ != old(self).bitfield@),
+        final(self).dirty == old(self).dirty
+    after `let mut offset = start & (n - 1);`:
+        assert(start & 31 == start % 32) by (bit_vector);
+        assert(start & 31 <= start) by (bit_vector);
+    loop 1:
+        invariant
+            n == 32, end == start + length, end <= 32768,
+            offset < 32, i <= 1024,
+            remaining == end as int - (32 * i as int + offset as int),
+            start as int <= 32 * i as int + offset as int,
+            offset == 0 || 32 * i as int + offset as int == start as int,
+            self.dirty == old(self).dirty,
+            forall|j: int| i as int <= j < 1024 ==> self.bitfield@[j] == old(self).bitfield@[j],
+            forall|k: int| 0 <= k < 32 * i as int ==> self.bit(k)
+                == (if start <= k < end { value } else { old(self).bit(k) }),
+            changed ==> (exists|j: int| 0 <= j < i as int && self.bitfield@[j] != old(self).bitfield@[j]),
+            !changed ==> self.bitfield@ == old(self).bitfield@
+        decreases 1024 - i
+    before `let mask_seed = if power == 32 {`:
+        assert(power as int == (if remaining <= 32 - offset { remaining as int } else { 32 - offset as int }));
+        proof {
+            if power < 32 {
+                vstd::arithmetic::power2::lemma_pow2(power as nat);
+                vstd::bits::lemma_u32_pow2_no_overflow(power as nat);
+                vstd::arithmetic::power2::lemma_pow2_pos(power as nat);
+            }
+        }
+    after `let mask: u32 = mask_seed << offset;`:
+        let ghost w = self.bitfield@[i as int];
+        let ghost iw = i as int;
+        let ghost snap = self.bitfield@;
+        let ghost self0 = *self;
+        assert(i < 1024);
+        assert(forall|o: u32| o < 32 ==> bit_of(mask, o) == (offset <= o && (o as int) < offset as int + power as int)) by {
+            if power == 32 {
+                assert(offset == 0);
+                assert(forall|o: u32| o < 32 ==> bit_of(0xffff_ffffu32 << 0u32, o)) by (bit_vector);
+            } else {
+                vstd::arithmetic::power2::lemma_pow2(power as nat);
+                vstd::bits::lemma_u32_shl_is_mul(1u32, power);
+                vstd::bits::lemma_u32_pow2_no_overflow(power as nat);
+                assert(mask_seed == ((1u32 << power) - 1) as u32);
+                assert(forall|o: u32| o < 32 ==> #[trigger] bit_of(mask, o)
+                    == (offset <= o && o < offset + power)) by (bit_vector)
+                    requires offset < 32, power < 32, offset + power <= 32,
+                        mask == ((((1u32 << power) - 1) as u32) << offset);
+            }
+        }
+        assert(forall|o: u32| o < 32 ==> bit_of(w | mask, o) == (bit_of(w, o) || bit_of(mask, o))) by (bit_vector);
+        assert(forall|o: u32| o < 32 ==> bit_of(w & !mask, o) == (bit_of(w, o) && !bit_of(mask, o))) by (bit_vector);
+        assert(((w & mask) != mask) ==> ((w | mask) != w)) by (bit_vector);
+        assert(((w & mask) != 0) ==> ((w & !mask) != w)) by (bit_vector);
+        assert(((w & mask) == mask) ==> (forall|o: u32| o < 32 && bit_of(mask, o) ==> bit_of(w, o))) by (bit_vector);
+        assert(((w & mask) == 0) ==> (forall|o: u32| o < 32 && bit_of(mask, o) ==> !bit_of(w, o))) by (bit_vector);
+    before `remaining -= (n - offset) as i64;`:
+        assert forall|k: int| 0 <= k < 32 * iw + 32 implies #[trigger] self.bit(k)
+                == (if start <= k < end { value } else { old(self).bit(k) }) by {
+            if k < 32 * iw {
+                assert(k / 32 < iw);
+                assert(self.bitfield@[k / 32] == snap[k / 32]);
+                assert(self.bit(k) == self0.bit(k));
+            } else {
+                assert(k / 32 == iw);
+                let o = (k % 32) as u32;
+                assert(o < 32);
+                assert(old(self).bitfield@[iw] == w);
+                assert(k == 32 * iw + o);
+                assert(old(self).bit(k) == bit_of(w, o));
+                assert(self.bit(k) == bit_of(self.bitfield@[iw], o));
+                assert(bit_of(mask, o) == (offset <= o && (o as int) < offset as int + power as int));
+                assert(bit_of(mask, o) == (start <= k < end));
+            }
+        }
+    @*/
+
+    /*@ fn src/bitfield/fixed.rs FixedBitfield::from_data
+    tags: C08 C01 C06
+    result: r
+    requires:
+        data_index + 4096 <= usize::MAX
+    ensures:
+        !r.dirty,
+        forall|k: int| 0 <= k < 32768 ==> #[trigger] r.bit(k)
+            == (data_index + 4 * (k / 32) + 4 <= data@.len() && bytes_bit(data@, 8 * data_index + k))
+    first:
+        assert(forall|o: u32| o < 32 ==> !bit_of(0u32, o)) by (bit_vector);
+    loop 1:
+        invariant
+            data_index <= i <= limit + 4,
+            (i - data_index) % 4 == 0,
+            limit == (if data_index + 4096 <= data@.len() { data_index + 4096 } else { data@.len() as int }) - 4,
+            data@.len() >= data_index + 4,
+            forall|j: int| (i - data_index) / 4 <= j < 1024 ==> bitfield@[j] == 0u32,
+            forall|k: int| 0 <= k < 8 * (i - data_index) ==> #[trigger] bit_of(bitfield@[k / 32], (k % 32) as u32)
+                == bytes_bit(data@, 8 * data_index + k)
+        decreases limit + 4 - i
+    before `bitfield[(i - data_index) / 4] = value;`:
+        let ghost bf0 = bitfield@;
+        let ghost wi = (i - data_index) / 4;
+    before `i += 4;`:
+        proof {
+            lemma_word_bytes(value, data@[i as int], data@[i + 1], data@[i + 2], data@[i + 3]);
+            assert forall|k: int| 0 <= k < 8 * (i + 4 - data_index) implies
+                #[trigger] bit_of(bitfield@[k / 32], (k % 32) as u32) == bytes_bit(data@, 8 * data_index + k) by {
+                if k < 8 * (i - data_index) {
+                    assert(k / 32 < wi);
+                    assert(bitfield@[k / 32] == bf0[k / 32]);
+                } else {
+                    assert(k / 32 == wi);
+                    let o = (k % 32) as u32;
+                    assert(k == 32 * wi + o);
+                    assert((8 * data_index + k) / 8 == i + o / 8);
+                    assert((8 * data_index + k) % 8 == o % 8);
+                    assert(bitfield@[wi] == value);
+                }
+            }
+        }
+    @*/
+
+    /*@ fn src/bitfield/fixed.rs FixedBitfield::to_bytes
+    tags: C08 C01 C06
+    result: r
+    ensures:
+        r@.len() == 4096,
+        forall|k: int| 0 <= k < 32768 ==> #[trigger] bytes_bit(r@, k) == self.bit(k)
+    sub `for elem in self\.bitfield \{` => `for elem in it: self.bitfield.iter() {`
+    sub `&elem\.to_le_bytes\(\)` => `&vp_u32_to_le_bytes(*elem)`
+    loop 1:
+        invariant
+            i == 4 * it.index@,
+            forall|k: int| 0 <= k < 8 * i ==> #[trigger] bytes_bit(data@, k) == self.bit(k)
+    before `i += 4;`:
+        proof {
+            let ghost w = *elem;
+            let ghost wi = it.index@ as int;
+            assert(w == self.bitfield@[wi]);
+            lemma_byte_of(w);
+            lemma_word_bytes(w, byte_of(w, 0), byte_of(w, 1), byte_of(w, 2), byte_of(w, 3));
+            assert forall|k: int| 0 <= k < 8 * (i + 4) implies #[trigger] bytes_bit(data@, k) == self.bit(k) by {
+                if k < 8 * i {
+                    assert(data@[k / 8] == data0[k / 8]);
+                    assert(bytes_bit(data0, k) == self.bit(k));
+                } else {
+                    let o = (k % 32) as u32;
+                    assert(k / 32 == wi);
+                    assert(k / 8 == i + o / 8);
+                    assert(k % 8 == o % 8);
+                }
+            }
+        }
+    before `data[i] = bytes[0];`:
+        let ghost data0 = data@;
     @*/
 }
 
